@@ -338,7 +338,7 @@ func runSite(mode string) sim.RigFunc {
 
 		// ---- which wrapping directives ----
 		pick := func(p int) bool { return st.Draw(100) < p }
-		r.hasLog = mode == "C20" || pick(60)
+		r.hasLog = mode == "C20" || mode == "C19" || pick(60)
 		r.hasGzip = mode == "C18" || pick(50)
 		r.hasErrors = pick(50) || r.hasGzip // (gzip implies errors, httpserver adds it)
 		r.hasHeader, r.hasStatus, r.hasMime, r.hasReqID, r.hasInternal, r.hasAuth = pick(50), pick(40), pick(40), pick(40), pick(30), pick(25)
@@ -571,6 +571,9 @@ func (r *siteRig) genReq(id, site string) *sreq {
 	if pick(50) {
 		q.hdrs = append(q.hdrs, [2]string{"Cookie", "ck=" + []string{"v1", "{host}", "{>X-Req}", "a}b"}[st.Draw(4)]})
 	}
+	if r.mode == "C19" {
+		r.hostileRequest(q)
+	}
 	q.ae = []string{"", "gzip", "gzip, deflate, br", "br", "zstd, gzip", "identity", "deflate", "gzip;q=0.5", "br, zstd", "zstd"}[st.Draw(10)]
 	if sc.mode == "static" {
 		if pick(10) {
@@ -645,13 +648,39 @@ func (r *siteRig) genReq(id, site string) *sreq {
 		// the handler reports what it read in the response body
 		sc.status, sc.preCE, sc.writes, sc.flush = 200, "", [][]byte{[]byte("x")}, []bool{false}
 	}
-	if pick(15) {
+	if pick(15) && r.mode != "C19" {
 		sc.panicAt = st.Draw(len(sc.writes) + 1)
 		if sc.mode == "return" {
 			sc.panicAt = 0
 		}
 	}
 	return q
+}
+
+// hostileRequest decorates a request with peer-controlled text aimed at the
+// placeholder replacer, the path matchers, cookies and basic auth (C19).
+func (r *siteRig) hostileRequest(q *sreq) {
+	st := r.st
+	junk := []string{"{", "}", "{}", "{>", "{>}", "{~", "{?", "{{", "}}", `\`, `\{`, "{" + strings.Repeat("a", 300), strings.Repeat("{", 200), "{>" + strings.Repeat("X", 100) + "}", "{~a}{?b}{>c}",
+		"{when}", "{latency}", "{request}", "{request_body}", "{mitm}", "{tls_cipher}", "{rewrite_uri}", "{path_escaped}", "{dir}", "{file}", "{hostonly}", "{port}", "{remote}", "{user}", "{labelN}", "{label0}", "{label99999999999999999999}", "{label-1}", "\x00", "\xff\xfe"}
+	pickj := func() string { return junk[st.Draw(len(junk))] }
+	q.hdrs = append(q.hdrs, [2]string{"X-Evil", pickj() + pickj()})
+	switch st.Draw(6) {
+	case 0:
+		q.hdrs = append(q.hdrs, [2]string{"Cookie", "ck=" + pickj() + "; ;;=; a"})
+	case 1:
+		q.hdrs = append(q.hdrs, [2]string{"Cookie", "=; ck"})
+	case 2:
+		q.hdrs = append(q.hdrs, [2]string{"Authorization", "Basic " + []string{"", "!!!!", "Og==", "Ym9i", "Ym9iOg==", strings.Repeat("QQ", 3000)}[st.Draw(6)]})
+	case 3:
+		q.hdrs = append(q.hdrs, [2]string{"Authorization", []string{"Basic", "Bearer x", "Basic\tYQ==", "basic Ym9iOmh1bnRlcjI="}[st.Draw(4)]})
+	case 4:
+		q.hdrs = append(q.hdrs, [2]string{"Referer", pickj()}, [2]string{"User-Agent", pickj()})
+	}
+	q.query = "q=" + []string{"%", "%zz", "%7B%7D", "{}", "a=b=c", "&&&", ";", strings.Repeat("%7B", 300)}[st.Draw(8)]
+	if st.Draw(3) == 0 {
+		q.path = []string{"/p/%2e%2e/x", "/p//./../p/x", "/p/%00", "/P/X", "/p/" + strings.Repeat("a/", 200), "/p/x%", "/p/{host}", "/p/%7Bhost%7D", "/secret%2Fx", "/p/auth%2fx"}[st.Draw(10)]
+	}
 }
 
 func (r *siteRig) addConn(rs []*sreq) {
@@ -771,7 +800,7 @@ func (r *siteRig) judge() {
 			anyAbort = true
 		}
 	}
-	if superfluous > 0 && !anyPanicAfterWrite && !anyAbort {
+	if superfluous > 0 && !anyPanicAfterWrite && !anyAbort && mode != "C19" {
 		c.Violate("C12/header-committed-twice", r.dirSig(), "net/http reported %d superfluous WriteHeader calls although no handler panicked after writing and no client aborted: %s", superfluous, firstMatching(procLog, "superfluous"))
 	}
 	for _, q := range r.reqs {
@@ -794,6 +823,10 @@ func (r *siteRig) judge() {
 				c.Probe("connection-cut-by-panic-after-write")
 				continue
 			}
+			if mode == "C19" {
+				c.Probe("hostile-request-closed-connection") // e.g. 400 + close for a NUL in a header
+				continue
+			}
 			if h.perr != nil || h.closedByServer || h.done {
 				c.Violate("C12/no-response", r.dirSig(), "request %s (%s %s) got no complete well-formed response: framing error %v, closed by server %v (script %s)", q.id, q.method, q.path, h.perr, h.closedByServer, sc.describe())
 			}
@@ -803,6 +836,9 @@ func (r *siteRig) judge() {
 		q.resp = resp
 		wantStatus, _, _ := r.expectStatus(q)
 		panicked := sc.panicAt >= 0
+		if mode == "C19" {
+			continue // only the panic / liveness monitors apply to hostile request text
+		}
 		if sc.mode != "static" && !panicked || sc.panicAt == 0 {
 			if resp.Status != wantStatus {
 				c.Violate("C12/status-differs", fmt.Sprintf("want=%d/%s", wantStatus, sc.mode), "request %s (%s %s): handler %s, client got status %d, want %d (%s)", q.id, q.method, q.path, sc.describe(), resp.Status, wantStatus, r.dirSig())
@@ -828,6 +864,23 @@ func (r *siteRig) judge() {
 	}
 	if mode == "C20" {
 		r.judgeLog(lines)
+	}
+	if mode == "C19" {
+		errLog, _ := os.ReadFile(r.errFile)
+		for _, l := range append(procLog, strings.Split(string(errLog), "\n")...) {
+			if strings.Contains(l, "[PANIC") || strings.Contains(l, "panic serving") || strings.Contains(l, "runtime error") {
+				c.Violate("C19/panic", "request-text", "peer-controlled request text made request handling panic: %s", trunc([]byte(l), 300))
+				break
+			}
+		}
+		for _, q := range r.reqs {
+			if q.resp != nil && q.resp.Status == 500 && q.script.mode != "return" && q.script.status != 500 {
+				c.Violate("C19/panic", "request-text/500", "request %s (%s %s, headers %v) was answered 500 although its handler never fails", q.id, q.method, q.path, q.hdrs)
+			}
+			if q.resp != nil {
+				c.Probe("hostile-request-answered")
+			}
+		}
 	}
 	// contained panics: the server must still be answering (a later request on a
 	// fresh connection is generated by the schedule; liveness is checked by the drain)
